@@ -567,8 +567,23 @@ def Keychain.addP2s (kc : Keychain) (script : Bytes) : Keychain :=
 def Keychain.p2sForHash (kc : Keychain) (h : Bytes) : Option Bytes :=
   kc.p2s.find? (fun s => Hash.hash160 s = h ∨ Hash.sha256 s = h)
 
+/-- the loop `for key in self._secrets.get(fingerprint, []): self._add_key_to_cache(key.subkey_for_path(path))` -/
+def Keychain.cacheDerived (derive : KeyRec → String → Option KeyRec) (fp : Bytes) (path : String) :
+    List KeyRec → Keychain → Except Err Keychain
+  | [], kc => .ok kc
+  | k :: r, kc =>
+    if k.fingerprint = fp then
+      match derive k path with
+      | none => .error .value
+      | some sub =>
+        match kc.addKeyToCache sub with
+        | .error e => .error e
+        | .ok kc' => Keychain.cacheDerived derive fp path r kc'
+    else Keychain.cacheDerived derive fp path r kc
+
 /-- `Keychain.get(h160)` on the key tables (the P2S short-cut answers with a script and is `p2sForHash`):
-the new state (the cache grows on a path hit) and the entry.  `derive key path` is `key.subkey_for_path(path)`. -/
+the new state (the cache grows on a path hit) and the entry.  `derive key path` is `key.subkey_for_path(path)`.
+A miss stores nothing. -/
 def Keychain.get (derive : KeyRec → String → Option KeyRec) (kc : Keychain) (h160 : Bytes) :
     Except Err (Keychain × Option Entry) :=
   match assocGet h160 kc.cache with
@@ -577,18 +592,7 @@ def Keychain.get (derive : KeyRec → String → Option KeyRec) (kc : Keychain) 
     match kc.paths.find? (·.1 = h160) with
     | none => .ok (kc, none)
     | some (_, path, fp) =>
-      let rec go : List KeyRec → Keychain → Except Err Keychain
-        | [], kc => .ok kc
-        | k :: r, kc =>
-          if k.fingerprint = fp then
-            match derive k path with
-            | none => .error .value
-            | some sub =>
-              match kc.addKeyToCache sub with
-              | .error e => .error e
-              | .ok kc' => go r kc'
-          else go r kc
-      match go kc.secrets kc with
+      match Keychain.cacheDerived derive fp path kc.secrets kc with
       | .error e => .error e
       | .ok kc' => .ok (kc', assocGet h160 kc'.cache)
 
